@@ -117,7 +117,7 @@ def c12_1(R):
     R.floor("unknown-key handlers", len(seen), 2)
 
 
-@rule("C12.2", ["C12", "C08", "C13"], ["E2", "E6"], "every table insert is dominated by 'not full' and 'key absent'",
+@rule("C12.2", ["C12", "C08", "C13", "C04", "C10", "C01"], ["E2", "E6"], "every table insert is dominated by 'not full' and 'key absent'",
       "Both Dispatcher.streams.insert sites are control-dependent on streams_full() = false; match_syn_with_accept additionally on streams.contains_key(&recv_key) = false for the very key it inserts; "
       "on_maybe_connect_ack inserts (addr, msg.header.connection_id), the key whose lookup just missed in on_recv (C12.1). streams_full is `streams.len() >= max_active_streams.get()`; "
       "ConnectRequest is refused under streams_full() = true; get_next_free_conn_id advances while the candidate key is present.")
